@@ -139,7 +139,7 @@ func (is *c07Issuer) evalCase(c *h.Ctx, cat_ string, data []byte) (served bool) 
 }
 
 func runC07(c *h.Ctx) {
-	origins := []string{"origin.example", "b.example", "x"}
+	origins := []string{"origin.example", "b.example", "x", "dotted.example.", "Mixed.Example", " spaced.example"}
 	is := newC07Issuer(c, 0, origins)
 	other := newC07Issuer(c, 1, origins) // another issuer: other name key (and token key)
 	client := type3.NewRateLimitedClientFromSecret(rnd(c, 48))
@@ -206,7 +206,8 @@ func runC07(c *h.Ctx) {
 		is.evalCase(c, "signature:negated-s", mal)
 	}
 	// registered / unregistered origins, near misses
-	names := []string{"origin.example", "b.example", "x", "", "origin.exampl", "origin.example0", "origin.examplf", "\x00origin.example", "\x00\x00x", "origin.example\x00x", "Origin.example", "x\x00", "origin.example.", "y",
+	names := []string{"dotted.example.", "dotted.example", "dotted.example..", "Mixed.Example", "mixed.example", "MIXED.EXAMPLE", " spaced.example", "spaced.example",
+		"origin.example", "b.example", "x", "", "origin.exampl", "origin.example0", "origin.examplf", "\x00origin.example", "\x00\x00x", "origin.example\x00x", "Origin.example", "x\x00", "origin.example.", "y",
 		string(make([]byte, 31)), "xx"}
 	for _, n := range names {
 		st, err := is.env.request(client, rnd(c, 20), rnd(c, 32), rnd(c, 48), n)
